@@ -406,11 +406,17 @@ func splitPeriod(mpd *m.MPD, a *asset, cfg *ResponseConfig, wTimes wrapTimes) er
 	for pNr := startPeriodNr; pNr <= endPeriodNr; pNr++ {
 		p := inPeriod.Clone()
 		p.Id = fmt.Sprintf("P%d", pNr)
-		p.Start = m.Seconds2DurPtr(pNr * periodDur)
+		// Periods tile wall-clock time, but Period@start, presentationTimeOffset and the media
+		// timeline are relative to availabilityStartTime.
+		pStartS, pEndS := pNr*periodDur-cfg.StartTimeS, (pNr+1)*periodDur-cfg.StartTimeS
+		if pStartS < 0 {
+			pStartS = 0 // the stream starts inside this period
+		}
+		p.Start = m.Seconds2DurPtr(pStartS)
 		for aNr, as := range p.AdaptationSets {
 			inAS := inPeriod.AdaptationSets[aNr]
 			timeScale := int(as.SegmentTemplate.GetTimescale())
-			pto := Ptr(uint64(pNr * periodDur * timeScale))
+			pto := Ptr(uint64(pStartS * timeScale))
 			templateType := cfg.liveMPDType()
 			if as.ContentType == "image" {
 				templateType = segmentNumber
@@ -419,18 +425,18 @@ func splitPeriod(mpd *m.MPD, a *asset, cfg *ResponseConfig, wTimes wrapTimes) er
 			case segmentNumber:
 				as.SegmentTemplate.PresentationTimeOffset = pto
 				segDur := int(*as.SegmentTemplate.Duration)
-				startNr := uint32(pNr * periodDur * timeScale / segDur)
+				startNr := uint32(pStartS * timeScale / segDur)
 				as.SegmentTemplate.StartNumber = Ptr(startNr)
 			case timeLineTime:
 				as.SegmentTemplate.PresentationTimeOffset = pto
 				inS := inAS.SegmentTemplate.SegmentTimeline.S
-				periodStart, periodEnd := uint64(pNr*periodDur), uint64((pNr+1)*periodDur)
+				periodStart, periodEnd := uint64(pStartS), uint64(pEndS)
 				as.SegmentTemplate.SegmentTimeline.S, _ = reduceS(inS, nil, timeScale, periodStart, periodEnd)
 			case timeLineNumber:
 				as.SegmentTemplate.PresentationTimeOffset = pto
 				inS := inAS.SegmentTemplate.SegmentTimeline.S
 				startNr := inAS.SegmentTemplate.StartNumber
-				periodStart, periodEnd := uint64(pNr*periodDur), uint64((pNr+1)*periodDur)
+				periodStart, periodEnd := uint64(pStartS), uint64(pEndS)
 				as.SegmentTemplate.SegmentTimeline.S, as.SegmentTemplate.StartNumber = reduceS(inS, startNr, timeScale, periodStart, periodEnd)
 			default:
 				return fmt.Errorf("unknown mpd type")
